@@ -50,7 +50,7 @@ func split(ctx context.Context, r io.Reader) (<-chan string, <-chan error) {
 		}
 		if err := sc.Err(); err != nil {
 			verifPoint("split.err")
-			errc <- err
+			sendErr(ctx, errc, err)
 			return
 		}
 		verifPoint("split.last")
@@ -63,6 +63,16 @@ func split(ctx context.Context, r io.Reader) (<-chan string, <-chan error) {
 	}()
 
 	return blockc, errc
+}
+
+// sendErr reports err on a stage's error channel. The error channels are read once (the first
+// error wins), so a plain send could block a worker forever once several blocks fail; a worker
+// that cannot deliver its error gives up as soon as the pipeline is cancelled.
+func sendErr(ctx context.Context, errc chan<- error, err error) {
+	select {
+	case errc <- err:
+	case <-ctx.Done():
+	}
 }
 
 func isRootBlockBeginning(l string, sharpRoot bool) bool {
